@@ -1425,6 +1425,9 @@ impl Traceable for JsObject {
                 if let Some(outer) = &env_data.outer {
                     visitor(outer.copy_ref());
                 }
+                if let Some(ns) = &env_data.namespace_object {
+                    visitor(ns.copy_ref());
+                }
             }
             ExoticObject::Array { elements } => {
                 // Trace all array elements that are objects
@@ -2652,6 +2655,11 @@ pub struct EnvironmentData {
     pub bindings: FxHashMap<VarKey, Binding>,
     /// Parent environment (if any) - now a GC reference
     pub outer: Option<JsObjectRef>,
+    /// For the scope of a TypeScript namespace body: the namespace object. A name that is not
+    /// bound in this environment resolves to an own property of that object, so exported members
+    /// (which live only as properties, as in `N.x` of the emitted JavaScript) are visible to the
+    /// whole body, to later blocks of the same namespace and to closures created in it.
+    pub namespace_object: Option<JsObjectRef>,
 }
 
 impl EnvironmentData {
@@ -2660,6 +2668,7 @@ impl EnvironmentData {
         Self {
             bindings: FxHashMap::default(),
             outer: None,
+            namespace_object: None,
         }
     }
 
@@ -2668,6 +2677,7 @@ impl EnvironmentData {
         Self {
             bindings: FxHashMap::default(),
             outer,
+            namespace_object: None,
         }
     }
 
@@ -2677,6 +2687,7 @@ impl EnvironmentData {
         Self {
             bindings: FxHashMap::with_capacity_and_hasher(capacity, Default::default()),
             outer,
+            namespace_object: None,
         }
     }
 }
